@@ -153,3 +153,22 @@ Proof.
     destruct (IH t1 Hwf1 Hord) as (t' & Hr & Hwf' & Hz' & Hb' & Ha' & Hl').
     exists t'. repeat split; try assumption; try congruence. lia.
 Qed.
+
+(* whoever only calls rmslice with ordered bounds - any strategy, present or future - can only
+   delete reducible atoms: the result of any such chain is sub_reducible of the start *)
+Lemma rm_seq_sub_reducible : forall ops t t', wf t -> ordered_seq (zipped t) ops = true ->
+  rm_seq t ops = Ok t' -> sub_reducible t t'.
+Proof.
+  induction ops as [|[a b] ops IH]; intros t t' Hwf Hord Hr.
+  - simpl in Hr. injection Hr as <-. apply sub_reducible_refl. exact Hwf.
+  - cbn [rm_seq ordered_seq] in *.
+    apply andb_true_iff in Hord. destruct Hord as [Hle Hord].
+    apply Z.leb_le in Hle.
+    rewrite <- (n_reducible_eq t Hwf) in *.
+    destruct (rmslice t a b) as [t1|e] eqn:H1; [|discriminate].
+    destruct (rmslice_spec t a b t1 Hwf H1 Hle) as (Hwf1 & Hz1 & _).
+    rewrite <- Hz1 in Hord.
+    apply (sub_reducible_trans t t1 t').
+    + apply (rmslice_sub_reducible t a b t1 Hwf H1 Hle).
+    + apply (IH t1 t' Hwf1 Hord Hr).
+Qed.
